@@ -603,11 +603,23 @@ def check_c07(ctx):
             # (master level: blacklisted by the patterns the master was
             # shown, not by the flag it set on the instance; healthy only if
             # the state the master recorded agrees)
-            protected = (
-                pre.server is not None and
+            healthy = (
                 ctx.pre_srv.get(pre.server, (None,))[0] == 'up' and
                 (state_fn is None or
-                 state_fn(pre.server) in (None, 'up')) and
+                 state_fn(pre.server) in (None, 'up')))
+            looked = getattr(ctx.truth, 'looked_present', None)
+            if not healthy and looked is not None and \
+                    pre.server in looked and \
+                    pre.server not in ctx.truth.admin_down and \
+                    pre.server not in ctx.truth.frozen and \
+                    ctx.pre_srv.get(pre.server, (None,))[0] != 'frozen':
+                # its presence node was there when the master last looked
+                # and nothing has been said about it since: healthy,
+                # whatever the model made of a stale snapshot
+                healthy = True
+            protected = (
+                pre.server is not None and
+                healthy and
                 not (bl_fn(name) if bl_fn is not None
                      else pre.blacklisted) and
                 _within_cap(ctx, rank, name) and
